@@ -34,6 +34,26 @@ Notation kstep := (kstep k terms nl).
 Notation krun := (krun k terms nl).
 Notation to_snap := (to_snap k terms nl).
 
+(** the invariant, clause by clause *)
+Lemma KInv_flat : forall s,
+  KInv s <->
+  (CInv (kc s) /\
+   (forall b bk c e, nth_error (kb s) b = Some bk -> b_ent bk = Some c -> In e (ce_edges c) ->
+      edge_ok_b (cn (kc s)) e = true) /\
+   (forall b bk, nth_error (kb s) b = Some bk ->
+      gc_claimed_b (kph s) (knext s) (length (kb s)) b = true ->
+      b_ent bk = None /\ b_bit bk = true /\ ~ In b (map snd (kwk s))) /\
+   NoDup (map snd (kwk s)) /\
+   (forall tid b, In (tid, b) (kwk s) -> exists bk, nth_error (kb s) b = Some bk /\ b_bit bk = true) /\
+   (forall b bk, nth_error (kb s) b = Some bk -> b_bit bk = true ->
+      gc_claimed_b (kph s) (knext s) (length (kb s)) b = true \/ In b (map snd (kwk s))) /\
+   knext s <= length (kb s)).
+Proof.
+  intros s. split.
+  - intros [H1 H2 H3 H4 H5 H6 H7]. exact (conj H1 (conj H2 (conj H3 (conj H4 (conj H5 (conj H6 H7)))))).
+  - intros [H1 [H2 [H3 [H4 [H5 [H6 H7]]]]]]. constructor; assumption.
+Qed.
+
 (** ** no dangling weak edge (executable form) *)
 
 Theorem no_dangling : forall s, KInv s -> no_dangling_b k terms s = true.
